@@ -58,3 +58,32 @@ Proof. exact tie_file_format. Qed.
 Theorem C12_source_only_empty_file_bypasses_reader : forall size, 0 <= size ->
   (src_read_pairs_shortcut size = true <-> size = 0).
 Proof. exact tie_empty_file. Qed.
+
+(* One candidate row is (input index, stored index, distance) as assigned in the source; the size
+   checks raise the class the model returns; an omitted maxmatch is the model's default_maxmatch and
+   an omitted file is None. *)
+Theorem C12_source_rows_errors_defaults : forall dis cover sorter tri m n2 n2dec n1 n1dec rads k i (c : cnd),
+  src_row i (fst c) (snd c) = (i, fst c, snd c)
+  /\ (matcher_init tri n2 n2dec
+       = (if src_matcher_init_rejects (Z.of_nat n2) (Z.of_nat n2dec) then Err src_matcher_init_error else Ok (matcher_new tri n2))
+     /\ matcher_match dis cover sorter m n1 n1dec rads k
+       = (if src_matcher_match_rejects (Z.of_nat n1) (Z.of_nat n1dec) (Z.of_nat (length rads)) then Err src_matcher_match_error
+          else Ok (match_loop dis cover sorter (m_hmap m) k rads n1))
+     /\ htm_match dis cover sorter tri n2 n2dec n1 n1dec rads k
+       = (if src_htm_match_rejects (Z.of_nat n1) (Z.of_nat n1dec) (Z.of_nat n2) (Z.of_nat n2dec) (Z.of_nat (length rads))
+          then Err src_htm_match_error
+          else do m <- matcher_init tri n2 n2dec; matcher_match dis cover sorter m n1 n1dec rads k))
+  /\ (src_matcher_match_default_maxmatch = default_maxmatch /\ src_htm_match_default_maxmatch = default_maxmatch
+      /\ src_default_file_is_none = (true, true)).
+Proof. intros. split; [apply tie_row|]. split; [apply tie_sizes_with_class|apply tie_defaults]. Qed.
+
+(* Argument by argument: the distance is gcirc(ra, dec, tra, tdec, degrees = true) of the input point and
+   the stored point; file rows are (i1, i2, d12) and the result vectors (m1, m2, d12) receive (i1, i2, d12);
+   idlist is flist then plist; HTM.match is Matcher(depth, ra2, dec2).match(ra1, dec1, radius,
+   maxmatch=maxmatch, file=filename); Matcher.match hands (ra, dec, radius, maxmatch, filename) to the C++ method. *)
+Theorem C12_source_calls_and_columns :
+  src_dis_call = expected_dis_call /\ src_file_columns = expected_file_columns
+  /\ src_memory_columns = expected_memory_columns /\ src_idlist_order = expected_idlist_order
+  /\ src_htm_builds = expected_htm_builds /\ src_htm_calls = expected_htm_calls
+  /\ src_matcher_calls = expected_matcher_calls.
+Proof. exact tie_calls_and_columns. Qed.
